@@ -14,7 +14,7 @@ CLAIMS = {
          "operator, as literals and as variables, plus random pairs; debug and release profiles in the thorough tier."),
  "C09": ("Theorems: != is the negation of ==; comparison and equality among int, uint and double are those of the exact numbers denoted (NaN unordered) - for EVERY pair, two doubles "
          "included: SpecFloat's IEEE comparison of valid doubles is proved to be the comparison of the rationals m*2^e (a valid mantissa has 53 bits unless the exponent is minimal), and "
-         "every 64-bit pattern is proved to decode to a valid double; trichotomy, <= iff < or ==, antisymmetry for all values; TRANSITIVITY of < wherever it is defined (numbers of the three "
+         "every 64-bit pattern is proved to decode to a valid double; trichotomy, <= iff < or ==, antisymmetry for all values; == is an EQUIVALENCE RELATION on NaN-free values: symmetric on all values - numbers of different kinds, lists, function values and maps (each key held once; the counting argument) -, transitive on all values with valid doubles (numbers of the three kinds through the exact numbers they denote, containers by induction; so 0u == 0 == -0.0 forces 0u == -0.0), reflexive where no NaN occurs; TRANSITIVITY of < wherever it is defined (numbers of the three "
          "kinds mixed freely, strings, bools, durations, timestamps); code-point order of strings; list and map equality characterised element-wise; unrelated kinds unequal and unordered; "
          "max returns an element bounding all others for every non-empty list of numbers without NaN (and in general for any list on which the order is reflexive and transitive). Validity "
          "of doubles produced by arithmetic is SpecFloat's (not proved here). Tied to objects.rs/functions.rs by all pairs of a ~100-value boundary set through Value::eq/partial_cmp "
@@ -90,7 +90,8 @@ CLAIMS = {
          "the built-ins; a function body is only called with values of the shapes its extractors produce; all value operators are total on all value "
          "pairs. Termination is the structural Fixpoint. Tied to the code by all pairs of a ~110-value boundary set under the five operators on Value "
          "directly, and by generated programs of depth <= 8 against contexts with extreme values (debug and release in the thorough tier); any "
-         "implementation panic is reported as a failing input. Panics inside untranscribed library code are reachable only by that run."),
+         "implementation panic is reported as a failing input. Panics inside untranscribed library code are reachable only by that run, which therefore also drives every time built-in over chrono's limit "
+         "instants seen from every kind of UTC offset (finding F27, repaired), many distinct regular expressions on one thread, and host functions of every extractor kind with too few / enough / too many arguments."),
  "C20": ("Theorems: for every function whose first parameter is This<T> and whose other parameters are positional - which includes every "
          "receiver-style built-in of the default context (checked) - and every value-denoting receiver, x.f(args) and f(x, args) evaluate to the same "
          "outcome and log, for all argument expressions; a host function with positional parameters is invoked iff enough arguments are present and "
@@ -139,7 +140,9 @@ CLAIMS = {
          "string or single-entry map; wrappers -> duration/timestamp); key kinds accepted/refused; every supported datum converts; and for JSON-representable "
          "data (no bytes / 128-bit / wrappers, keys serde_json accepts, text-distinct keys) converting then exporting equals a model of serde_json's own "
          "serializer. Tied to ser.rs / json.rs / serde_json by a generator with a hand-written Serialize impl that drives every Serializer method, "
-         "unsupported keys included, plus every document of a JSON generator; the commutation law is also evaluated on the implementation with the real serde_json."),
+         "unsupported keys of every kind included (all the compound kinds the key serializer refuses), plus every document of a JSON generator; the commutation law is also evaluated on the implementation with the real serde_json. "
+         "Data that reuses the private marker names of the Duration / Timestamp wrappers is outside the Coq data model (it carries no newtype names) and is held by a law on the implementation only: 55 kinds of "
+         "data under either marker at three nesting positions give an error or exactly the wrapper's value, never a panic (finding F28, repaired)."),
  "C18": ("Theorems by induction on values: Value::json never panics, succeeds exactly on values without a function value or a duration beyond i64 nanoseconds "
          "and returns an error otherwise; the document is structurally the value (JExp: arrays, objects keyed by key text with insert-in-iteration-order, "
          "base64, RFC 3339, nanosecond count, non-finite -> null); base64 is inverted by a decoder for every byte string; and importing the exported document "
@@ -159,7 +162,7 @@ CLAIMS = {
          "histories (one context, up to 50 executions) and thread runs (2-16 threads sharing one program set and one root context by reference, each in its own "
          "inner scope) are answered execution by execution by the history-free model, and the harness checks that every context variable, the program and "
          "every earlier result are unchanged after each execution, that repetition, an equal fresh context and a thread that has executed nothing yet (the program compiled again) give equal results, and that no context-held "
-         "buffer gained or lost an owner; Program/Context/Value are asserted Send+Sync at compile time. Theorems: outcome and host-call log depend on the "
+         "buffer gained or lost an owner, and that every public entry point of an execution (Program::try_from, Context::resolve on the parser's tree, Context::resolve_all / Value::resolve_all) gives what Program::execute gives; Program/Context/Value are asserted Send+Sync at compile time (a tree on which they are not is a violation of this property, and the other properties' checks then build the harness without this stream). Theorems: outcome and host-call log depend on the "
          "context only through its function registry and the lookups of the identifiers occurring in the program (frame); equal contexts, an inner scope and "
          "a private unreferenced variable change nothing. (b) Heap model of the Arc discipline behind list/string + (owner counts, clone on lookup, "
          "Arc::make_mut in-place append, Arc::get_mut move): theorems by induction on the program - an execution changes no buffer that existed before, "
